@@ -50,12 +50,12 @@ if _missing or _stale:
     # a class was added to / removed from the library: the zoo must be told (harness error, exit 2)
     raise RuntimeError(f"C07 zoo out of date: classes without driver or NOT_DRIVEN entry {_missing}; unknown classes {_stale}")
 
-RUNS = {"quick": 40 * len(NAMES), "thorough": 400_000}       # 40 seeds per driver on average (>= 20 each, see runs.<Driver>)
+RUNS = {"quick": 50 * len(NAMES), "thorough": 400_000}       # 50 seeds per driver on average (>= 20 each, see runs.<Driver>)
 WALL = {"quick": 58, "thorough": 1500}
 BATCH = {"quick": 25, "thorough": 150}
 SELFTEST_RUNS = 24
 SHRINK_BUDGET_S = {"quick": 12.0, "thorough": 60.0}
-SHRINK_SKIP = ("driver", "tags")
+SHRINK_SKIP = ("driver", "tags", "t0_ns")
 
 RULE = (
     "each case = one driver of the component zoo (chosen uniformly among %d drivers covering %d Entity classes) with a "
@@ -95,16 +95,22 @@ ASSUMPTIONS = [
                                                                                  zoo.CREEP_NS_PER_DELIVERY, zoo.CREEP_WINDOW),
 ]
 EXPECTED_PROBES = ([f"driven.{c}" for c in DRIVEN_CLASSES] +
-                   ["probe.arr_burst", "probe.arr_idle_gap", "probe.arr_ns_step", "probe.arr_at_timer_expiry", "probe.arr_steady",
+                   ["probe.arr_burst", "probe.arr_idle_gap", "probe.arr_ns_step", "probe.arr_at_timer_expiry", "probe.arr_steady", "probe.arr_decimal_step", "probe.nonzero_start_time",
                     "probe.zero_delay_config", "probe.same_instant_10plus", "probe.repo_timer_in_future",
                     "probe.process_parked_on_future", "fault.partition", "fault.crash", "fault.pause", "fault.loss",
                     "fault.latency", "fault.stragglers", "fault.msgs_dropped_by_partition"])
 
 
+T0_CHOICES = [0, 0, 0, 0, 1_000_000_007, 3_600_000_000_001, 86_400_123_456_789]
+
+
 def gen(rng, tier):
     name = rng.choice(NAMES)
-    return {"driver": name, "seed": rng.randrange(1, 2**31), "net_seed": rng.randrange(1, 2**31),
-            "cfg": DRIVERS[name]["gen"](rng)}
+    sc = {"driver": name, "seed": rng.randrange(1, 2**31), "net_seed": rng.randrange(1, 2**31),
+          "cfg": DRIVERS[name]["gen"](rng)}
+    # Simulation(start_time=...): mostly the epoch, sometimes 1 s + 7 ns, 1 h + 1 ns, 1 day + 123 456 789 ns
+    sc["t0_ns"] = rng.choice(T0_CHOICES)
+    return sc
 
 
 def _has_zero(x) -> bool:
@@ -132,6 +138,8 @@ def run(sc):
             counters[f"driven.{cls}"] = 1
             driven_subject = driven_subject or cls == d["classes"][0]
     counters[f"runs.{d['name']}"] = 1
+    if sc.get("t0_ns"):
+        counters["probe.nonzero_start_time"] = 1
     if out["status"] == "budget":
         counters[f"budget.{d['name']}"] = 1
     if out["status"] == "repo-exception":
